@@ -8,6 +8,7 @@ import (
 	"bytes"
 	"encoding/json"
 	"fmt"
+	"io"
 	"strconv"
 	"strings"
 
@@ -143,17 +144,43 @@ func unmarshalJSON[T constraint.ParserInput](input T, r Rule) (Size, error) {
 		if err != nil {
 			return 0, newParseError(defaultParserFuncName, input, err)
 		}
+		if t, err = d.Token(); err != nil || t != json.Delim('}') {
+			return 0, newParseError(defaultParserFuncName, input, endOfValueError(err))
+		}
+		if err = expectEOF(d); err != nil {
+			return 0, newParseError(defaultParserFuncName, input, err)
+		}
 		return size, nil
 	case json.Number:
+		if err = expectEOF(d); err != nil {
+			return 0, newParseError(defaultParserFuncName, input, err)
+		}
 		return unmarshalText([]byte(v), 0)
 	case string:
 		if r&RuleEnableJSONStringForm == 0 {
 			return 0, newParseError(defaultParserFuncName, input, ErrStringFormDisabled)
 		}
+		if err = expectEOF(d); err != nil {
+			return 0, newParseError(defaultParserFuncName, input, err)
+		}
 		return unmarshalText([]byte(v), 0)
 	default:
 		return 0, newParseError(defaultParserFuncName, input, fmt.Errorf("%w: expected json.Delim, json.Number or string instead of %T", ErrInvalidType, t))
 	}
+}
+
+func expectEOF(d *json.Decoder) error {
+	if _, err := d.Token(); err != io.EOF {
+		return endOfValueError(err)
+	}
+	return nil
+}
+
+func endOfValueError(err error) error {
+	if err == nil || err == io.EOF {
+		return ErrUnexpectedData
+	}
+	return err
 }
 
 func prepareNumber(input string) (number, unit string) {
